@@ -13,6 +13,7 @@ judge:          the differential the property names: `erg run -o 0|1|2|3` on eve
                 exception and exit status must be the same at all levels (Spec.judge, extracted)
 """
 import concurrent.futures
+import hashlib
 import tempfile
 from lib.vplib import *
 
@@ -44,6 +45,34 @@ VARIANTS = {"Call": 3, "Accessor": 2, "TypeAsc": 19, "Record": 14, "ReDef": 20, 
             "Set": 10, "Dict": 12, "Lambda": 15, "Def": 16, "Code": 21, "Compound": 22, "ClassDef": 17, "PatchDef": 18,
             "Import": 23, "Dummy": 24, "Literal": 0}
 PASSES = {"eliminate_discarded_variables": 1, "eliminate_unused_variables": 2}
+# sha1 (16 hex digits) of the whitespace-normalised, comment-free body of every function the model transcribes: a changed body
+# means the transcription may no longer be the code -> the tie is broken and the escalated search runs (never a silent pass)
+MODELLED_BODIES = {
+    "optimize.rs": {"optimize": "a5f8d8dc8ab93d69", "eliminate_dead_code": "34be7433e866c3e2",
+                    "eliminate_discarded_variables": "ed9851f07a2fdd3a", "eliminate_unused_variables": "f0c81eef198150dd",
+                    "eliminate_unused_def": "0a80ef3ff70944de"},
+    "effectcheck.rs": {"is_impure": "f40cb77d013247e5", "is_pure": "ae4ff3e3d1b7171f"},
+}
+
+
+def changed_bodies():
+    """names of the modelled functions whose body is not the transcribed one"""
+    out = []
+    comp = os.path.join(REPO, "crates", "erg_compiler")
+    for f, fns in MODELLED_BODIES.items():
+        try:
+            src = strip_rust_comments(open(os.path.join(comp, f)).read())
+        except OSError:
+            out.append(f + " (unreadable)")
+            continue
+        for n, want in fns.items():
+            try:
+                got = hashlib.sha1(squeeze(fn_body(src, n)).encode()).hexdigest()[:16]
+            except Exception:
+                got = None
+            if got != want:
+                out.append("%s:%s" % (f, n))
+    return out
 
 
 # ------------------------------------------------------------------ translator: /repo -> coq/gen/OptLevels.v
@@ -191,15 +220,18 @@ def translate(ctx):
 # ------------------------------------------------------------------ generator (Erg source)
 MARK = "@@C12"          # the compiler prints its warnings on stdout too: the program's own output starts after this line
 PREAMBLE = ['print! "%s"' % MARK, "zero = 0", "three = list 0..<3", "gl = !list 0..<1", "gi = !0",
-            "gq!(a: Int) =", "    print! \"gq\", a", "    gl.push! a", "    a + 1"]
+            "gq!(a: Int) =", "    print! \"gq\", a", "    gl.push! a", "    a + 1",
+            "h2(x: Int, y := 0) = x + y", "idf(x: Int) = x", "sv(*xs: Int) = len(xs)"]
 
 
 class Gen:
     """one program: a list of top-level statements (each a list of lines) after the preamble"""
 
-    def __init__(self, rng, praise, peffect):
+    def __init__(self, rng, praise, peffect, focus=None, playout=0.25):
         self.r = rng
         self.k = 0
+        self.focus = set(focus or [])   # kinds to prefer (escalated search around a disagreeing construct)
+        self.playout = playout          # probability of the source layout variations (`;`-joined statements ...)
         self.praise = praise        # probability weight of possibly-raising initialisers
         self.peffect = peffect      # probability weight of effectful initialisers
         self.kinds = {}
@@ -242,10 +274,24 @@ class Gen:
         kinds = ["lit", "lit", "arith", "arith", "blk", "list", "tuple", "fcall"]
         if effects:
             kinds += ["print", "push", "inc", "pcall", "pblk", "rec", "methcall"] * (1 if r.random() < self.peffect else 0) + ["print", "push"]
+        kinds += ["arg_kw_pure", "arg_star_pure"]
+        if effects:
+            # every way an effectful sub-expression can be handed to a call
+            kinds += ["arg_pos", "arg_kw", "arg_star", "arg_kwstar", "arg_var", "arg_default"] * (1 if r.random() < self.peffect else 0) + ["arg_kw"]
         if r.random() < self.praise:
             kinds = ["div0", "index", "intstr", "assert", "divnz"]
-        k = r.choice(kinds)
+        pref = [k for k in kinds if ("init:" + k) in self.focus]
+        k = r.choice(pref) if pref and r.random() < 0.7 else r.choice(kinds)
         self.count("init:" + k)
+        eff = lambda: r.choice(["gq!(%s)" % self.iexpr(sc, 1), "gq!(%s).abs()" % self.iexpr(sc, 0)])
+        if k == "arg_pos": return k, "h2(%s, %s)" % (eff(), self.iexpr(sc, 1)), [], "int"
+        if k == "arg_default": return k, "h2(%s)" % eff(), [], "int"
+        if k == "arg_kw": return k, "h2(%s, y := %s)" % (self.iexpr(sc, 1), eff()), [], "int"
+        if k == "arg_star": return k, "idf(*[%s])" % eff(), [], "int"
+        if k == "arg_kwstar": return k, 'h2(%s, **{"y": %s})' % (self.iexpr(sc, 1), eff()), [], "int"
+        if k == "arg_var": return k, "sv(%s, %s)" % (eff(), self.iexpr(sc, 1)), [], "int"
+        if k == "arg_kw_pure": return k, "h2(%s, y := %s)" % (self.iexpr(sc, 1), self.iexpr(sc, 1)), [], "int"
+        if k == "arg_star_pure": return k, "idf(*[%s])" % self.iexpr(sc, 1), [], "int"
         if k == "lit": return k, str(r.randint(0, 99)), [], "int"
         if k == "arith": return k, self.iexpr(sc, 3), [], "int"
         if k == "fcall": return k, ("%s(%s)" % (r.choice(sc["func"]), self.iexpr(sc, 1)) if sc["func"] else self.iexpr(sc, 2)), [], "int"
@@ -292,21 +338,79 @@ class Gen:
         sc["local_used"] = []
         stmts = []
         for _ in range(n):
-            stmts.append(self.statement(sc, effects, ind, depth, toplevel))
+            st = self.statement(sc, effects, ind, depth, toplevel)
+            if stmts and len(st) == 1 and self.r.random() < self.playout and not stmts[-1][-1].rstrip().endswith((":", "=", "=>")) \
+                    and len(stmts[-1][-1]) - len(stmts[-1][-1].lstrip()) == ind and len(stmts[-1][-1]) < 150:
+                # source layout: the statement shares the last line of the previous one (`a = 1; print! a`,
+                # a definition and its use on one line, the last line of a multi-line definition followed by a use)
+                stmts[-1] = stmts[-1][:-1] + [stmts[-1][-1] + "; " + st[0].strip()]
+                self.count("layout:joined with ;")
+            else:
+                stmts.append(st)
         return stmts, sc
 
     def statement(self, sc, effects, ind, depth, toplevel):
         r = self.r
         sp = " " * ind
-        kinds = ["def"] * 6 + ["func", "lam"]
+        kinds = ["def"] * 6 + ["func", "lam", "func1", "mlist"]
+        if toplevel:
+            # a recursive subroutine nested in another one hits a code generator bug at every level (UnboundLocalError / cell)
+            kinds += ["recfn", "mrec"]
         if effects:
             kinds += ["print", "print", "push", "inc", "proc", "pcallstmt"]
             if depth > 0:
                 kinds += ["if", "for", "if"]
-        k = r.choice(kinds)
+        pref = [k for k in kinds if ("stmt:" + k) in self.focus]
+        k = r.choice(pref) if pref and r.random() < 0.5 else r.choice(kinds)
         if k == "def":
             return self.definition(sc, effects, ind, toplevel)
         self.count("stmt:" + k)
+        if k == "func1":
+            # one-line subroutine; used or not; a use may follow on the same line (block() joins with `;`)
+            name = self.fresh("f")
+            pp = self.fresh("p")
+            inner = self.sub_scope(sc, pp)
+            line = sp + "%s(%s: Int) = %s" % (name, pp, self.iexpr(inner, 2))
+            if r.random() < 0.6:
+                sc["func"].append(name)
+                if toplevel:
+                    sc["gfunc"].append(name)
+                if r.random() < 0.6 and effects:
+                    line += "; print! %s(%s)" % (name, self.iexpr(sc, 0))
+                    self.count("layout:definition and use share a line")
+            return [line]
+        if k == "mlist":
+            name = self.fresh("v")
+            lines = [sp + "%s = [%s," % (name, self.iexpr(sc, 1)), sp + "    %s]" % self.iexpr(sc, 1)]
+            if r.random() < 0.6:
+                if effects and r.random() < 0.6:
+                    lines[-1] += "; print! %s" % name
+                    self.count("layout:use on the last line of a multi-line definition")
+                else:
+                    sc["show"].append(name)
+                    sc["local_used"].append(name)
+            return lines
+        if k == "recfn":
+            name = self.fresh("f")
+            used = r.random() < 0.5
+            self.count("recursive subroutine: " + ("used" if used else "unused"))
+            lines = [sp + "%s(n: Int): Int =" % name, sp + "    if n <= 0, do %s, do (n + %s(n - 1))" % (self.iexpr({"int": list(sc["gint"]), "func": [], "lam": []}, 0), name)]
+            if used:
+                sc["func"].append(name)
+                if toplevel:
+                    sc["gfunc"].append(name)
+            return lines
+        if k == "mrec":
+            a_, b_ = self.fresh("f"), self.fresh("f")
+            used = r.random() < 0.5
+            self.count("mutually recursive subroutines: " + ("used" if used else "unused"))
+            lines = [sp + "%s(n: Int): Int = if n <= 0, do 0, do %s(n - 1)" % (a_, b_),
+                     sp + "%s(n: Int): Int = if n <= 0, do 1, do %s(n - 1)" % (b_, a_)]
+            if used:
+                sc["func"].append(a_)
+                if toplevel:
+                    sc["gfunc"].append(a_)
+            return lines
         if k == "print":
             return [sp + "print! %s" % ", ".join(([r.choice(sc["show"])] if sc["show"] and r.random() < 0.4 else []) + [self.iexpr(sc, 0), self.iexpr(sc, 2)])]
         if k == "push":
@@ -401,6 +505,32 @@ SYS_INITS = [  # (kind, rhs or None, extra body lines (relative indentation 4), 
     ("int_bad", 'int "zz"', [], True, True), ("int_ok", 'int "12"', [], True, True),
     ("assert_bad", "assert zero == 1", [], True, True), ("assert_ok", "assert zero == 0", [], True, True),
     ("fraise", "sr(1)", [], True, True),
+    # every way of handing an effectful sub-expression to a call
+    ("arg_pos_eff", "h2(gq!(1), 2)", [], False, True), ("arg_default_eff", "h2(gq!(1))", [], False, True),
+    ("arg_kw_eff", "h2(1, y := gq!(2))", [], False, True), ("arg_star_eff", "idf(*[gq!(1)])", [], False, True),
+    ("arg_kwstar_eff", 'h2(1, **{"y": gq!(2)})', [], False, True), ("arg_var_eff", "sv(gq!(1), 2)", [], False, True),
+    ("arg_kw_print", 'h2(1, y := len([print! "k0", 1]))', [], False, True),
+    ("arg_kw_pure", "h2(1, y := 2)", [], True, True), ("arg_star_pure", "idf(*[3])", [], True, True),
+]
+# source layout: statements sharing a line, (mutually) recursive subroutines used / unused
+SYS_LAYOUT = [
+    ("var and use on one line", ["a0 = 4; print! a0"]),
+    ("function and use on one line", ["t0(x: Int) = x * 3; print! t0(4)"]),
+    ("function, variable and use on one line", ["t0(x: Int) = x * 3; b0 = t0(2); print! b0"]),
+    ("lambda and use on one line", ["t0 = (x: Int) -> (x * 3); print! t0(4)"]),
+    ("use after a one-line function uses a global", ["s0 = 3", "t0(x: Int) = x * s0; print! t0(4)"]),
+    ("unused function and a print on one line", ["t0(x: Int) = x * 3; print! \"u0\""]),
+    ("multi-line list, use on its last line", ["v0 = [1,", "    2]; print! v0"]),
+    ("multi-line function, use on the line after", ["t0(x: Int) =", "    y0 = x + 1", "    y0 * 2", "print! t0(1)"]),
+    ("use inside a block on the definition's line", ["if! zero == 0:", "    do!:", "        t0(x: Int) = x + 1; print! t0(1)"]),
+    ("effectful definitions on one line", ["x0 = gq!(1); y0 = gl.push! 7; print! \"u0\""]),
+    ("recursive function, used", ["r0(n: Int): Int =", "    if n <= 0, do 0, do (n + r0(n - 1))", "print! r0(3)"]),
+    ("recursive function, unused", ["r0(n: Int): Int =", "    if n <= 0, do 0, do (n + r0(n - 1))", "print! \"u0\""]),
+    ("recursive one-liner, used on its line", ["r0(n: Int): Int = if n <= 0, do 0, do (n + r0(n - 1)); print! r0(3)"]),
+    ("recursive one-liner, unused", ["r0(n: Int): Int = if n <= 0, do 0, do (n + r0(n - 1)); print! \"u0\""]),
+    ("mutual recursion, used", ["e0(n: Int): Int = if n <= 0, do 0, do o0(n - 1)", "o0(n: Int): Int = if n <= 0, do 1, do e0(n - 1)", "print! e0(3)"]),
+    ("mutual recursion, unused", ["e0(n: Int): Int = if n <= 0, do 0, do o0(n - 1)", "o0(n: Int): Int = if n <= 0, do 1, do e0(n - 1)", "print! \"u0\""]),
+    ("mutual recursion, used on the second line", ["e0(n: Int): Int = if n <= 0, do 0, do o0(n - 1)", "o0(n: Int): Int = if n <= 0, do 1, do e0(n - 1); print! o0(2)"]),
 ]
 SYS_PRE = ["sf(p: Int) = p + 1", "sg = (p: Int) -> (p + 2)", "sr(p: Int) =", "    y0 = p // zero", "    p"]
 SYS_CTX = ["module", "public", "proc", "then", "else", "for", "func"]
@@ -432,6 +562,12 @@ def systematic_cases():
                     body = ["sh(p: Int) ="] + ["    " + l for l in d] + ["    " + ("(p + x0)" if used and kind in ("lit", "arith", "blk", "fcall", "lamcall", "len", "abs", "div0", "mod0", "divnz", "index_bad", "index_ok", "int_bad", "int_ok", "fraise") else "p"), "print! sh(1)"]
                 src = "\n".join(PREAMBLE + SYS_PRE + body + ["print! gl, gi"]) + "\n"
                 out.append(("%s in %s, %s" % (kind, cx, "used" if used else "unused"), src))
+    for label, body in SYS_LAYOUT:
+        out.append(("layout: " + label, "\n".join(PREAMBLE + body + ["print! gl, gi"]) + "\n"))
+        if "recurs" in label:
+            continue
+        out.append(("layout: " + label + " (in a procedure)",
+                    "\n".join(PREAMBLE + ["lp!(p: Int) ="] + ["    " + l for l in body] + ["    p", "print! lp!(1)", "print! gl, gi"]) + "\n"))
     return out
 
 
@@ -666,15 +802,51 @@ def stmt_extent(lines, i):
     return j
 
 
+def split_top(line):
+    """[(start, end)] of the `;`-separated statements of a line (separators inside brackets / strings do not count)"""
+    segs, depth, q, start = [], 0, None, len(line) - len(line.lstrip())
+    for i, c in enumerate(line):
+        if q:
+            if c == q and line[i - 1] != "\\":
+                q = None
+        elif c == '"':
+            q = c
+        elif c in "([{":
+            depth += 1
+        elif c in ")]}":
+            depth -= 1
+        elif c == ";" and depth == 0:
+            segs.append((start, i))
+            start = i + 1
+    segs.append((start, len(line)))
+    return segs
+
+
 def without_known(src, removed):
-    """source with the removed definitions of the known class deleted (they are unused: the rest still compiles)"""
+    """source with the removed definitions of the known class deleted (they are unused: the rest still compiles); a
+    definition that shares its line with other statements (`a = 1; b = f(2); print! a`) is cut out of the line"""
     lines = src.split("\n")
     kill = set()
-    for ident, known in removed:
-        if known:
-            ln = ident // 1000000 - 1
-            if 0 <= ln < len(lines):
-                kill.update(range(ln, stmt_extent(lines, ln)))
+    for ident, known in sorted(removed, reverse=True):
+        if not known:
+            continue
+        ln, col = ident // 1000000 - 1, (ident % 1000000) // 1000
+        if not (0 <= ln < len(lines)) or ln in kill:
+            continue
+        segs = split_top(lines[ln])
+        k = max([n for n, (a, b) in enumerate(segs) if a <= col] or [0])
+        last = (k == len(segs) - 1)
+        if len(segs) == 1:
+            kill.update(range(ln, stmt_extent(lines, ln)))
+            continue
+        if last:
+            # the definition may continue on deeper-indented lines
+            kill.update(range(ln + 1, stmt_extent(lines, ln)))
+            lines[ln] = lines[ln][:segs[k][0] - 1].rstrip()
+        elif k == 0:
+            lines[ln] = lines[ln][:segs[0][0]] + lines[ln][segs[1][0]:].lstrip()
+        else:
+            lines[ln] = lines[ln][:segs[k][0] - 1] + lines[ln][segs[k][1]:]
     return "\n".join(l for i, l in enumerate(lines) if i not in kill)
 
 
@@ -738,8 +910,15 @@ def run(ctx):
                        "opt_preserves speaks about runs of the unoptimised program that end (normally or with an uncaught exception)",
                        "mini semantics: definition sites are unique, no recursion, no aliases of mutable objects, first-order values "
                        "(programs outside this fragment are only judged, their behaviour is not predicted)"]
-    tr = translate(ctx)
-    ctx.cov["translated"] = tr
+    tie = []            # reasons why the model may no longer be the code (each one triggers the escalated search)
+    try:
+        ctx.cov["translated"] = translate(ctx)
+    except TieBroken as e:
+        tie.append(str(e))
+    ch = changed_bodies()
+    if ch:
+        tie.append("the body of a modelled function changed: " + ", ".join(ch))
+    ctx.cov["tie_problems"] = tie
     proof = ctx.coq(["Optimize/Props_C12.v"])
     h = Harness(ctx, "optimize", env=ctx.erg_env())
     model = ctx.model("Optimize")
@@ -750,7 +929,9 @@ def run(ctx):
         cases.append(("corpus:" + f, src, expect, None))
     sysc = systematic_cases()
     if not ctx.thorough:
-        sysc = ctx.rng.sample(sysc, int(os.environ.get("C12_SYS", 24)))
+        lay = [c for c in sysc if c[0].startswith("layout:")]
+        rest = [c for c in sysc if not c[0].startswith("layout:")]
+        sysc = lay + ctx.rng.sample(rest, int(os.environ.get("C12_SYS", 40)))
     else:
         ctx.cov["exhaustive_small_scope"] = "%d placements: every initialiser kind (%d) in every context (%s), used and unused" % (
             len(sysc), len(SYS_INITS), ", ".join(SYS_CTX))
@@ -758,24 +939,51 @@ def run(ctx):
         cases.append(("placement", src, "any", None))
     ngen = int(os.environ.get("C12_N", ctx.scale(60, 2000)))
     gens = {}
-    for i in range(ngen):
-        g = Gen(ctx.rng, ctx.rng.choice([0.0, 0.0, 0.05, 0.15]), ctx.rng.choice([0.3, 0.6, 1.0]))
-        stmts = g.program()
-        cases.append(("gen", render(stmts), "same", stmts))
-        for k, v in g.kinds.items():
-            gens[k] = gens.get(k, 0) + v
-    for k, v in sorted(gens.items()):
-        ctx.count(k, v)
+    kinds_of = {}
+
+    def add_generated(n, focus=None, playout=None):
+        for i in range(n):
+            g = Gen(ctx.rng, ctx.rng.choice([0.0, 0.0, 0.05, 0.15]), ctx.rng.choice([0.3, 0.6, 1.0]), focus=focus,
+                    playout=ctx.rng.choice([0.0, 0.2, 0.5]) if playout is None else playout)
+            stmts = g.program()
+            src = render(stmts)
+            cases.append(("gen", src, "same", stmts))
+            kinds_of[src] = set(g.kinds)
+            for k, v in g.kinds.items():
+                gens[k] = gens.get(k, 0) + v
+    add_generated(ngen)
     ctx.log("%d programs" % len(cases))
     results = []
-    B = 400
-    for i in range(0, len(cases), B):
-        results += evaluate(ctx, h, model, erg, [c[1] for c in cases[i:i + B]])
-        ctx.log("evaluated %d/%d" % (min(i + B, len(cases)), len(cases)))
-    report(ctx, proof, h, model, erg, cases, results)
+
+    def evaluate_new():
+        B = 400
+        todo = cases[len(results):]
+        for i in range(0, len(todo), B):
+            results.extend(evaluate(ctx, h, model, erg, [c[1] for c in todo[i:i + B]]))
+            ctx.log("evaluated %d/%d" % (len(results), len(cases)))
+    evaluate_new()
+    # escalation: the tie is broken (translator, changed body, theorem) or model and implementation disagree somewhere, and no
+    # program judged so far fails: search around the disagreeing constructs before concluding "no failing input found"
+    dis = [(c, r) for c, r in zip(cases, results) if r.status == 0 and (r.tree_diff or r.beh_diff or r.oracle_sound is False)]
+    failing = [r for r in results if not r.judge]
+    if (tie or dis or not proof.ok) and not [r for r in failing if not any(k for _i, k in r.removed)]:
+        focus = set()
+        for c, r in dis:
+            focus |= kinds_of.get(c[1], set())
+        ctx.log("escalated search: %d tie problems, %d disagreeing programs, focus on %s" % (len(tie), len(dis), sorted(focus)[:12]))
+        ctx.cov["escalated"] = {"tie_problems": tie, "disagreeing_programs": len(dis), "focus": sorted(focus)}
+        done = set(c[1] for c in cases)
+        for label, src in systematic_cases():
+            if src not in done:
+                cases.append(("placement", src, "any", None))
+        add_generated(int(os.environ.get("C12_ESC", ctx.scale(150, 600))), focus=focus or None, playout=0.5 if not focus else None)
+        evaluate_new()
+    for k, v in sorted(gens.items()):
+        ctx.count(k, v)
+    report(ctx, proof, h, model, erg, cases, results, tie)
 
 
-def report(ctx, proof, h, model, erg, cases, results):
+def report(ctx, proof, h, model, erg, cases, results, tie=()):
     known = {k.get("class"): k for k in known_entries(ctx) if k.get("class")}
     n_tree = n_beh = n_invalid = n_unpred = n_unsound = 0
     first_tree = first_beh = first_unsound = None
@@ -846,8 +1054,8 @@ def report(ctx, proof, h, model, erg, cases, results):
                       "status) and no removed definition of the known class explains it",
                       case={"src": small, "kind": kind}, impl=describe(rs),
                       model={"tree_diff": rs.tree_diff, "beh_diff": rs.beh_diff, "oracle_sound": rs.oracle_sound}, judge=False)
-    if not viol and (n_tree or n_beh or n_unsound or not proof.ok):
-        what = []
+    if not viol and (n_tree or n_beh or n_unsound or not proof.ok or tie):
+        what = list(tie)
         if not proof.ok:
             what.append("theorem(s) no longer check: " + proof.summary())
         if n_tree:
@@ -856,7 +1064,7 @@ def report(ctx, proof, h, model, erg, cases, results):
             what.append("%d programs whose observed behaviour is not the one the model's semantics predicts" % n_beh)
         if n_unsound:
             what.append("%d programs on which the reference index is unsound for a removed definition" % n_unsound)
-        ctx.violation("broken-correspondence" if (n_tree or n_beh or n_unsound) else "broken-theorem", "; ".join(what),
+        ctx.violation("broken-correspondence" if (n_tree or n_beh or n_unsound or tie) else "broken-theorem", "; ".join(what),
                       case=first_tree or first_unsound or first_beh, theorem=proof.summary() or None, no_input=True)
 
 
@@ -880,7 +1088,11 @@ def shrink(ctx, h, model, erg, stmts, r):
 def replay(ctx, path):
     j = json.load(open(path))
     src = j["case"]["src"]
-    translate(ctx)
+    try:
+        translate(ctx)
+    except TieBroken as e:
+        print("translator:", e)
+    print("changed bodies of modelled functions:", changed_bodies() or "none")
     h = Harness(ctx, "optimize", env=ctx.erg_env())
     model = ctx.model("Optimize")
     erg = ctx.erg_bin()
